@@ -291,6 +291,9 @@ def initial_markings(draw, doc, version, usable, max_granular=3):
     doc = dict(doc)
     if draw(st.booleans()):
         doc["object_marking_refs"] = picks(draw, MARKING_IDS, 1, 2)
+        if draw(st.integers(0, 5)) == 0:
+            # a legal document that lists an object marking twice
+            doc["object_marking_refs"] = doc["object_marking_refs"] + [doc["object_marking_refs"][0]]
     if usable and draw(st.booleans()):
         gms = []
         used = set()
